@@ -5,24 +5,18 @@ Import ListNotations.
 Open Scope string_scope.
 
 
-(* saml2/response.py:for_me, lines 207-224 *)
+(* saml2/response.py:for_me, lines 207-223 *)
 Definition src_for_me (v_conditions : pyval) (v_myself : pyval) : pyval :=
   (if py_truthy (py_not (py_attr v_conditions "audience_restriction"))
    then (PBool true)
-   else (let v_named := (PBool false) in
-   (match pyfor (py_iter (py_attr v_conditions "audience_restriction")) (fun v_restriction => (match pyfor (py_iter (py_or (py_attr v_restriction "audience") (PList []))) (fun v_audience => (if py_truthy (py_and (py_attr v_audience "text") (py_eq (py_strip (py_attr v_audience "text")) v_myself))
-   then (let v_named := (PBool true) in
-   Brk)
+   else (match pyfor (py_iter (py_attr v_conditions "audience_restriction")) (fun v_restriction => (match pyfor (py_iter (py_or (py_attr v_restriction "audience") (PList []))) (fun v_audience => (if py_truthy (py_and (py_attr v_audience "text") (py_eq (py_strip (py_attr v_audience "text")) v_myself))
+   then Brk
    else Next)) with
    | Ret r_ => (Ret r_)
-   | Brk => (if py_truthy (py_not v_named)
-   then (Ret (PBool false))
-   else Next)
-   | Next => (if py_truthy (py_not v_named)
-   then (Ret (PBool false))
-   else Next)
+   | Brk => Next
+   | Next => (Ret (PBool false))
    end)) with
    | Ret r_ => r_
    | Brk => (PBool true)
    | Next => (PBool true)
-   end))).
+   end)).
